@@ -249,6 +249,11 @@ func (e *Engine) observeParam(name string, v Val, st *State) ParamInfo {
 			add(name, v.C[0])
 		}
 	case *types.Pointer:
+		if _, ok := u.Elem().Underlying().(*types.Struct); ok {
+			pi.Kind = "struct"
+			add(name+".ref", v.ref())
+			e.observeStruct(name, v, st, 0)
+		}
 		if at, ok := u.Elem().Underlying().(*types.Array); ok && typeKey(at.Elem()) == "uint8" && at.Len() <= 256 {
 			pi.Kind = "bytearray"
 			pi.Len = int(at.Len())
@@ -257,6 +262,17 @@ func (e *Engine) observeParam(name string, v Val, st *State) ParamInfo {
 			arr := X.Select(h, v.ref())
 			for k := 0; k < pi.Len; k++ {
 				add(fmt.Sprintf("%s[%d]", name, k), X.Select(arr, X.Const(uint64(k), 64)))
+			}
+		}
+	case *types.Interface:
+		pi.Kind = "struct"
+		add(name+".tag", v.C[0])
+		add(name+".ref", v.C[1])
+		for _, t := range e.concreteTypes() {
+			if pt, isPtr := t.(*types.Pointer); isPtr && types.Implements(t, u) {
+				if _, isStruct := pt.Elem().Underlying().(*types.Struct); isStruct {
+					e.observeStruct(name+"("+shortType(t)+")", e.fromInterface(v, t), st, 0)
+				}
 			}
 		}
 	case *types.Slice:
@@ -291,16 +307,8 @@ func (e *Engine) lookup(f *frame, x *ssa.Lookup) Val {
 		h := e.heap(f.st, "arr:uint8/", smt.BV(8))
 		return e.intVal(x.Type(), X.Select(X.Select(h, base.C[0]), X.BVAdd(base.C[1], idx)))
 	}
-	bail("map lookup")
-	return Val{}
+	return e.mapLookup(f, x, base)
 }
-func (e *Engine) makeMap(f *frame, x *ssa.MakeMap) Val                          { bail("make(map)"); return Val{} }
-func (e *Engine) mapUpdate(f *frame, x *ssa.MapUpdate)                          { bail("map update") }
-func (e *Engine) mapLen(f *frame, m Val) Val                                    { bail("len(map)"); return Val{} }
-func (e *Engine) mapDelete(f *frame, m, k Val)                                  { bail("delete") }
-func (e *Engine) copyMap(is, st *State, v Val, seen map[string]bool, depth int) {}
-func (e *Engine) rangeStart(f *frame, x *ssa.Range) Val                         { bail("range over map/string"); return Val{} }
-func (e *Engine) rangeNext(f *frame, x *ssa.Next) Val                           { bail("range next"); return Val{} }
 
 // markOld records that the references of an input value predate every allocation of the call.
 func (e *Engine) markOld(v Val) {
@@ -540,4 +548,47 @@ func (e *Engine) runInit(pkg *ssa.Package) (out *State) {
 	}()
 	_, st2, _ := e.runFunc(initFn, nil, nil, st, nil)
 	return st2
+}
+
+// observeStruct registers the scalar fields of the struct a pointer refers to (and, through
+// interface/pointer fields of the library's own types, one more level) for counterexample display.
+func (e *Engine) observeStruct(name string, p Val, st *State, depth int) {
+	if depth > 2 || p.Cell != nil {
+		return
+	}
+	stT, ok := pointee(p.T).Underlying().(*types.Struct)
+	if !ok {
+		return
+	}
+	for i := 0; i < stT.NumFields(); i++ {
+		f := stT.Field(i)
+		fp := p
+		fp.T = types.NewPointer(f.Type())
+		fp.Path = p.Path + "." + f.Name()
+		switch u := f.Type().Underlying().(type) {
+		case *types.Basic:
+			if u.Info()&(types.IsInteger|types.IsBoolean) != 0 {
+				v := e.load(st, fp)
+				e.Observe = append(e.Observe, Observable{name + "." + f.Name(), v.C[0]})
+			}
+		case *types.Interface:
+			v := e.load(st, fp)
+			e.Observe = append(e.Observe, Observable{name + "." + f.Name() + ".tag", v.C[0]})
+			e.Observe = append(e.Observe, Observable{name + "." + f.Name() + ".ref", v.C[1]})
+			for _, t := range e.concreteTypes() {
+				if pt, isPtr := t.(*types.Pointer); isPtr && types.Implements(t, u) {
+					if _, isStruct := pt.Elem().Underlying().(*types.Struct); isStruct {
+						q := e.fromInterface(v, t)
+						e.observeStruct(name+"."+f.Name()+"("+shortType(t)+")", q, st, depth+1)
+					}
+				}
+			}
+		case *types.Pointer:
+			if _, isStruct := u.Elem().Underlying().(*types.Struct); isStruct {
+				v := e.load(st, fp)
+				e.Observe = append(e.Observe, Observable{name + "." + f.Name() + ".ref", v.C[0]})
+				e.observeStruct(name+"."+f.Name(), v, st, depth+1)
+			}
+		}
+	}
 }
